@@ -90,6 +90,56 @@ def fresh(root, tmp):
     return doc
 
 
+# ------------------------------------------------------------------------------------------- C04 (through the scan command and its cache)
+def measurements_of(doc, rel):
+    e = doc["codebase"]["files"].get(rel)
+    return None if e is None else [(m["unit_name"], m["value"], m["start"]["line"], m["end"]["line"]) for m in e["measurements"]]
+
+
+def run_c04(tmp, tier, rnd):
+    """scan, insert layout-only lines, scan again (the second scan finds the cache of the first): names, order and lengths are
+    unchanged and every line number moves by the number of lines inserted above it"""
+    fails, n = [], 0
+    comment = {"py": "# note", "js": "// note", "ts": "// note", "c": "/* note */", "java": "// note", "cpp": "// note", "cs": "// note"}
+    for ext in ("py", "js", "ts", "c", "java", "cpp", "cs"):
+        base = body(ext, "small", 4) + body(ext, "big", 35) if ext != "java" else body(ext, "big", 35)
+        lines = base.split("\n")
+        edits = []
+        for filler in ("", "    ", "\t", comment[ext]):
+            for at in (0, 1, len(lines) // 2, len(lines) - 1):
+                edits.append((filler, at, 1))
+            edits.append((filler, 0, 3))
+        if tier != "quick":
+            for _ in range(40):
+                edits.append((rnd.choice(["", "  ", comment[ext]]), rnd.randint(0, len(lines) - 1), rnd.randint(1, 4)))
+        for filler, at, k in edits:
+            n += 1
+            root = Path(tmp) / "c04"
+            if root.exists():
+                shutil.rmtree(root)
+            root.mkdir()
+            rel = "m." + ext
+            (root / rel).write_text(base)
+            set_excludes([])
+            try:
+                before = measurements_of(scan(root), rel)
+                new = lines[:at] + [filler if ext != "py" or filler.strip() == "" or at == 0 else "    " + filler] * k + lines[at:]
+                (root / rel).write_text("\n".join(new))
+                after = measurements_of(scan(root), rel)
+            except Exception as e:  # noqa
+                fails.append(("cached-scan:exception", f"{ext}: {type(e).__name__}: {e}", None))
+                continue
+
+            def shift(line):
+                return line + (k if line - 1 >= at else 0)
+            want = None if before is None else [(nm, v, shift(a), shift(b)) for nm, v, a, b in before]
+            # a line inserted inside a function's span moves its end but is not counted; the start moves only if above
+            if after != want:
+                fails.append(("cached-scan:changed", f"{ext}: {k} line(s) {filler!r} inserted before line {at + 1}, then a scan that finds the "
+                              f"previous cache: expected {want}, reported {after}", None))
+    return fails, n
+
+
 # ------------------------------------------------------------------------------------------- C09
 def apply_op(root, op, state):
     kind = op[0]
@@ -117,6 +167,19 @@ def apply_op(root, op, state):
             ta, tb = a.read_text(), b.read_text()
             a.write_text(tb)
             b.write_text(ta)
+    elif kind == "layout":
+        # edits that change only the layout: a blank line on top, a whitespace-only line inside, trailing spaces
+        f = Path(root) / op[1]
+        if f.exists():
+            ls = f.read_text().split("\n")
+            how = op[2]
+            if how == "blank-top":
+                ls.insert(0, "")
+            elif how == "ws-line" and len(ls) > 1:
+                ls.insert(1, "   ")
+            elif how == "trailing" and ls:
+                ls[0] = ls[0] + "  "
+            f.write_text("\n".join(ls))
     elif kind == "exclude":
         state["exclude"] = [] if state["exclude"] else ["sub"]
     elif kind in ("cache-other-version", "cache-bad-checksum"):
@@ -138,7 +201,8 @@ def c09_sequences(tier, rnd):
     paths = ["a.py", "b.js", "sub/c.py"]
     ops = [("write", "a.py", "long"), ("write", "a.py", "other"), ("write", "sub/c.py", "short"), ("delete", "a.py"), ("rename", "a.py", "d.py"),
            ("rename", "b.js", "b.py"), ("touch", "b.js"), ("swap", "a.py", "sub/c.py"), ("exclude",), ("cache-other-version",),
-           ("cache-bad-checksum",), ("write", "b.js", "long"), ("delete", "sub/c.py")]
+           ("cache-bad-checksum",), ("write", "b.js", "long"), ("delete", "sub/c.py"),
+           ("layout", "sub/c.py", "blank-top"), ("layout", "a.py", "ws-line"), ("layout", "b.js", "trailing")]
     seqs = [[o] for o in ops]
     seqs += [list(c) for c in itertools.permutations(ops, 2)][:: (3 if tier == "quick" else 1)]
     for _ in range(30 if tier == "quick" else 400):
@@ -297,7 +361,13 @@ def run_c10(tmp, tier, rnd):
 
 # ------------------------------------------------------------------------------------------- C11 / C12
 DIRS = ["", "src", "src/sub", "src/.gen", "lib", "lib/tests", ".hid", "tests", "build", "node_modules", "venv", "docs/api", "src/docs", "src/generated", "generated"]
-FILES = ["a.py", "b.js", "c.ts", "d.c", "e.txt", "Makefile", ".h.py", "F.java", "noext"]
+FILES = ["a.py", "b.js", "c.ts", "d.c", "e.txt", "Makefile", ".h.py", "F.java", "noext", "SConstruct", "LICENSE", "SConscript"]
+# names without an extension that Pygments maps to a supported language (its PythonLexer lists them)
+NAME_LANG = {"SConstruct": "py", "SConscript": "py"}
+
+
+def ext_of(name):
+    return NAME_LANG.get(name, name.rsplit(".", 1)[-1] if "." in name else "")
 DEFAULT_EXCL = [".bzr", ".direnv", ".eggs", ".git", ".git-rewrite", ".hg", ".ipynb_checkpoints", ".mypy_cache", ".nox", ".pants.d",
                 ".pytest_cache", ".pytype", ".ruff_cache", ".svn", ".tox", ".venv", ".vscode", "__pypackages__", "_build", "buck-out",
                 "build", "dist", "node_modules", "venv", "test", "tests"]
@@ -334,7 +404,7 @@ def expected_files(root, excludes):
                 continue
             if any(matches(p, rel) for p in DEFAULT_EXCL + excludes):
                 continue
-            ext = f.rsplit(".", 1)[-1] if "." in f else ""
+            ext = ext_of(f)
             if ext not in SUPPORTED:
                 continue
             out[rel] = (SUPPORTED[ext], hashlib.md5(open(full, "rb").read()).hexdigest())
@@ -350,10 +420,14 @@ def make_tree(root, rnd, dirs=None):
     for d in chosen:
         (root / d).mkdir(parents=True, exist_ok=True)
         for f in rnd.sample(FILES, rnd.randint(1, 4)):
-            ext = f.rsplit(".", 1)[-1] if "." in f else ""
+            ext = ext_of(f)
             n = rnd.choice([3, 35, 65])
             content = body(ext, "fn", n) if ext in ("py", "js", "ts", "c", "java") else "text\n"
-            (root / d / f).write_text(content)
+            if rnd.random() < 0.4:
+                ls = content.split("\n")
+                ls.insert(rnd.randint(0, len(ls) - 1), rnd.choice(["", "   ", "\t"]))
+                content = "\n" + "\n".join(ls) + rnd.choice(["", "\n", "\r\n"])
+            (root / d / f).write_bytes(content.encode())
     return chosen
 
 
@@ -627,6 +701,44 @@ def run_c06(tmp, tier, rnd):
     tg = {k: [[m["unit_name"], m["value"]] for m in v["measurements"]] for k, v in together.items()}
     if tg != alone:
         fails.append(("depends-on-other-files", f"files with identical bytes in different languages: together {tg} vs each alone {alone}", None))
+    # names without an extension and mixed encodings, visited in both directory orders: each file's result is what it is alone
+    mix = Path(tmp) / "w6" / "mix"
+    mix.mkdir(parents=True)
+    (mix / "Makefile").write_text("all:\n\techo hi\n")
+    (mix / "LICENSE").write_text("text\n")
+    (mix / "SConstruct").write_text(body("py", "build", 35))
+    (mix / "SConscript").write_text(body("py", "sub", 33))
+    (mix / "l_latin.py").write_bytes((body("py", "latin", 35) + "s = 'caf\u00e9'\n").encode("latin-1"))
+    (mix / "u_utf8.py").write_bytes(body("py", "gr\u00f6\u00dfe", 35).encode("utf-8"))
+    (mix / "v_utf8.js").write_bytes(body("js", "\u00fcber", 35).encode("utf-8"))
+    alone = {}
+    for nm in sorted(os.listdir(mix)):
+        one = Path(tmp) / "w6" / "one"
+        if one.exists():
+            shutil.rmtree(one)
+        one.mkdir()
+        shutil.copy(mix / nm, one / nm)
+        p = subprocess.run([sys.executable, os.path.abspath(__file__), "--scan-files", str(one)], capture_output=True, text=True, timeout=300)
+        alone.update(json.loads(p.stdout.strip().splitlines()[-1]))
+    real_walk = os.walk
+    from codelimit.common.Scanner import scan_path as _scan_path
+    for order in ("ascending", "descending"):
+        def ordered_walk(top, *a, _o=order, **kw):
+            for r, ds, fs in real_walk(top, *a, **kw):
+                fs2 = sorted(fs, reverse=(_o == "descending"))
+                yield r, ds, fs2
+        os.walk = ordered_walk
+        try:
+            set_excludes([])
+            cb = _scan_path(mix)
+            got = {k: [[m.unit_name, m.value] for m in v.measurements()] for k, v in cb.files.items()}
+        except Exception as e:  # noqa
+            got = f"{type(e).__name__}: {e}"
+        finally:
+            os.walk = real_walk
+        n += 1
+        if got != alone:
+            fails.append(("depends-on-traversal-order-or-other-files", f"files visited in {order} name order: {got} vs each file alone {alone}", None))
     # exclusion lists with negation: the result must not depend on the hash seed
     neg = Path(tmp) / "w6" / "neg"
     make_tree(neg, rnd, ["", "generated", "src"])
@@ -705,8 +817,8 @@ def main():
                 if seen[kind] <= 2:
                     out["failures"].append({"name": f"C10:{kind}", "what": what + (f" (+ more of this kind)" if seen[kind] == 2 else ""), "case": name, "tags": []})
             out["samples"] = [{"faults": "missing, empty, truncated at byte offsets, non-JSON, missing key / wrong type at every level, directory without file/markers"}]
-        elif prop in ("C11", "C12", "C06", "C03"):
-            fn = {"C11": run_c11, "C12": run_c12, "C06": run_c06, "C03": run_c03_paths}[prop]
+        elif prop in ("C11", "C12", "C06", "C03", "C04"):
+            fn = {"C11": run_c11, "C12": run_c12, "C06": run_c06, "C03": run_c03_paths, "C04": run_c04}[prop]
             fs, n = fn(tmp, tier, rnd)
             out["evaluations"] = out["distinct_nontrivial"] = n
             seen = {}
